@@ -23,7 +23,10 @@ fn label(t: &str, i: usize, salt: u64) -> ItemSpec {
         "FLOAT" => ItemSpec::Float(k as f32 + 0.25),
         "NAME" => ItemSpec::Name(format!("n{}", k)),
         "CODE" | "EXEC" => {
-            if i % 3 == 0 {
+            if salt % 5 == 0 && i < 2 {
+                // larger than max_points_in_program: stack manipulation does not depend on item size
+                ItemSpec::List((0..(110 + i as i32)).map(|x| ItemSpec::Int(x + k)).collect())
+            } else if i % 3 == 0 {
                 ItemSpec::List(vec![ItemSpec::Int(k), ItemSpec::Name(format!("m{}", i))])
             } else if i % 3 == 1 {
                 ItemSpec::Int(k)
@@ -206,8 +209,9 @@ pub fn run(ctx: &Ctx) -> PropReport {
         "nine stack types x {DUP,POP,SWAP,ROT,YANK,YANKDUP,SHOVE,FLUSH,STACKDEPTH} x depth x index; non-trivial = target stack depth >= 2 and the operation is not the identity on that case; distinct = (instruction, state) digest (grid: distinct by construction)",
         "REF: one generic position map (clamp c = max(min(depth-1, index), 0); YANK moves position c to 0; SHOVE moves 0 to c; YANKDUP copies c) applied to every type and compared on the whole snapshot + INV multiset conservation per op class. A type that deviates from the shared map is reported under its own instruction name.",
     );
-    rep.push(grid(ctx, ctx.tier.pick(20, 400)));
-    rep.push(run_sharded(ctx, "random", ctx.tier.pick(150_000, 3_000_000), random_strategy, |(t, o, s): &(String, String, StateSpec)| judge(t, o, s), |(t, o, s)| case_json(t, o, s)));
+    rep.push(grid(ctx, ctx.tier.pick(60, 400)));
+    rep.push(run_sharded(ctx, "random", ctx.tier.pick(400_000, 3_000_000), random_strategy, |(t, o, s): &(String, String, StateSpec)| judge(t, o, s), |(t, o, s)| case_json(t, o, s)));
+    rep.push(crate::props::incontext::run(ctx, ctx.tier.pick(40_000, 600_000)));
     rep
 }
 
